@@ -89,6 +89,21 @@ MUTANTS = [
     {"id": "C06-realized-seq-dropped-tail", "prop": "C06", "edits": [
         R(SEQRS, "            Some(Ok(v)) => Ok(new_py_cons(\n                py,\n                v,\n                Some(new_py_lazy_seq(py, slf.into_bound_py_any(py)?)?),",
           "            Some(Ok(v)) => Ok(new_py_cons(\n                py,\n                v,\n                Some(new_py_lazy_seq(py, Sequence { it: slf.it.clone_ref(py) }.into_bound_py_any(py)?)?),")]},
+    # ---- C14
+    {"id": "C14-revert-F7-keyword-hash", "prop": "C14", "revert": ["SUBJECT:keywords from cached bytecode are interned"]},
+    {"id": "C14-mtime-not-checked", "prop": "C14", "edits": [
+        R(IMPORTER, "    elif _r_long(raw_timestamp) != mtime:", "    elif False:")]},
+    {"id": "C14-size-check-less-than", "prop": "C14", "edits": [
+        R(IMPORTER, "    elif _r_long(raw_size) != source_size:", "    elif _r_long(raw_size) < source_size:")]},
+    {"id": "C14-eoferror-not-caught", "prop": "C14", "edits": [
+        R(IMPORTER, "                except (EOFError, ImportError, OSError) as e:", "                except (ImportError, OSError) as e:")]},
+    {"id": "C14-magic-not-checked", "prop": "C14", "edits": [
+        R(IMPORTER, "    if magic != MAGIC_NUMBER:", "    if False:")]},
+    {"id": "C14-cache-header-records-wrong-size", "prop": "C14", "edits": [
+        R(IMPORTER, "    data.extend(_w_long(source_size))", "    data.extend(_w_long(source_size + 1))")]},
+    {"id": "C14-partial-exec-before-validation", "prop": "C14", "edits": [
+        R(IMPORTER, "    return marshal.loads(cache_data[12:])  # nosec 6302",
+          "    try:\n        return marshal.loads(cache_data[12:])  # nosec 6302\n    except EOFError:\n        return []")]},
     # ---- C19
     {"id": "C19-slice-without-bounds-check", "prop": "C19", "edits": [
         R(BENCODE, "   (if (and end (> end (len bytes)))\n     (throw (python/ValueError \"out of input\"))",
